@@ -10,7 +10,7 @@ def parse_cases(out, tag="CASE", limit=40000):
     """out: a TlcResult (its output file is read line by line) or a string."""
     pre = '<<"%s", ' % tag
     cases = []
-    if hasattr(out, "path") and tag in ("CASE", "BAD"):
+    if hasattr(out, "path") and tag in ("CASE", "BAD", "RARE"):
         lines = (l.rstrip("\n") for l in open(out.path, errors="replace"))
     else:
         lines = (out.out if hasattr(out, "out") else out).splitlines()
